@@ -57,6 +57,12 @@ type acase struct {
 	PClass         string   `json:"pclass"`
 	Seq            []string `json:"seq"`
 	Entry          string   `json:"entry"`
+	// families "status" / "race"
+	List string `json:"list"`
+	Size string `json:"size"`
+	Pos  string `json:"pos"`
+	Src  string `json:"src"`
+	Ops  string `json:"ops"`
 }
 
 type caseIn struct {
@@ -64,6 +70,8 @@ type caseIn struct {
 	Case acase  `json:"case"`
 	Req  string `json:"req"`
 	Impl string `json:"impl"`
+	// family "race": the behaviour of Verify.tla (schedule of the operations on the status list)
+	Sched []schedStep `json:"sched,omitempty"`
 }
 
 type only struct {
@@ -134,6 +142,8 @@ type caseOut struct {
 	Mut   *mutOut  `json:"mut,omitempty"`
 	Error string   `json:"error,omitempty"`
 	Evals int      `json:"evals"`
+	Obs   []obs    `json:"obs,omitempty"`
+	Drift []string `json:"drift,omitempty"`
 }
 
 // ------------------------------------------------------------------------------------------------ world
@@ -155,6 +165,7 @@ type world struct {
 	notes map[string]string
 
 	baseCache map[string][]*baseDoc
+	sdocs     map[string]*statusDoc
 }
 
 func (w *world) T(i int) time.Time { return w.base.Add(time.Duration(i) * time.Hour) }
@@ -171,7 +182,7 @@ var uri = ssi.MustParseURI
 const orgType = "NutsOrganizationCredential"
 
 func newWorld(t *testing.T, in input) *world {
-	w := &world{t: t, seed: in.Seed, in: in, sig: map[string]*party{}, named: map[string]*party{}, docs: map[string]string{}, notes: map[string]string{}}
+	w := &world{t: t, seed: in.Seed, in: in, sig: map[string]*party{}, named: map[string]*party{}, docs: map[string]string{}, notes: map[string]string{}, sdocs: map[string]*statusDoc{}}
 	w.a = newNode(t, "A", true, nil)
 	w.b = newNode(t, "B", false, statusDoer(func() *node { return w.a }))
 	w.base = time.Now().Add(-48 * time.Hour).Truncate(time.Second)
@@ -456,6 +467,8 @@ func (w *world) methodsFor(ci caseIn) []string {
 	c := ci.Case
 	pick := hash64(fmt.Sprintf("%d|%s", w.seed, ci.ID))
 	switch c.Fam {
+	case "status", "race":
+		return []string{"web"}
 	case "vc", "vpsig":
 		if c.Store == "didstore" {
 			return []string{"nuts"}
@@ -1202,6 +1215,8 @@ func TestDriver(t *testing.T) {
 				_, err = w.vpVcDoc(ci.Case, m)
 			case "vpmulti":
 				_, err = w.vpMultiDoc(ci.Case, m)
+			case "status":
+				_, err = w.statusDoc(ci.Case)
 			}
 			if err != nil {
 				buildErr[ci.ID] = err.Error()
@@ -1226,6 +1241,17 @@ func TestDriver(t *testing.T) {
 					res.Evals++
 				}
 			}
+		case "status":
+			res = caseOut{ID: ci.ID, Evals: 1}
+			if e, bad := buildErr[ci.ID]; bad && strings.HasPrefix(e, "OWN-OUTPUT") {
+				res.Error = e
+			} else if bad {
+				res.Error = "cannot build the case: " + e
+			} else {
+				res.Runs = append(res.Runs, w.runStatus(ci))
+			}
+		case "race":
+			res = w.runRace(ci)
 		case "mut":
 			res = w.runMut(ci)
 		case "pairs":
